@@ -124,8 +124,6 @@ def settle(ctx, answers, pending):
             ctx.count(f"symbolic={sym}")
             key = "symbolically_verified_blocks" if sym is True else "numeric_only_blocks"
             ctx.extra[key] = ctx.extra.get(key, 0) + 1
-        key = "symbolically_verified_blocks" if sym is True else "numeric_only_blocks"
-        ctx.extra[key] = ctx.extra.get(key, 0) + 1
             if r["wellscoped"] and r["agree"] and r["speclen_ok"] and r["evaluated"] > 0 and sym is not False:
                 ctx.translator_discharged += 1
             else:
